@@ -126,6 +126,12 @@ func (g *pathGen) genPath() (string, any, string) {
 			cur, class = nativeField(cur, name)
 		case reflect.Slice, reflect.Array:
 			n := rv.Len()
+			if g.r.Chance(4) { // a bound (or index) that is not an integer: always an error, never a value
+				bad := g.r.Pick([]string{"1.5", "'1'", "nilv", "t", "s", "1.0", "xs"})
+				text += g.r.Pick([]string{"[" + bad + ":]", "[:" + bad + "]", "[0:" + bad + "]", "[" + bad + ":1:2]", "[0:" + bad + ":2]", "[0:1:" + bad + "]"})
+				cur, class = nil, "err"
+				break
+			}
 			if g.r.Chance(30) { // slicing
 				lo, hi := g.r.Intn(n+1), g.r.Intn(n+2)
 				if !valid {
@@ -193,7 +199,7 @@ func (g *pathGen) genPath() (string, any, string) {
 				name = names[g.r.Intn(len(names))]
 			}
 			if g.r.Chance(20) { // method
-				name = g.r.Pick([]string{"Hello", "PtrM", "GetX", "Twice", "Nope", "Next", "Self", "Next", "Self"})
+				name = g.r.Pick([]string{"Hello", "PtrM", "GetX", "Twice", "Nope", "Next", "Self", "Next", "Self", "Load", "Try", "Try"})
 				orig := reflect.ValueOf(cur)
 				m := orig.MethodByName(name)
 				if !m.IsValid() {
@@ -210,7 +216,11 @@ func (g *pathGen) genPath() (string, any, string) {
 					cur = "abab"
 				} else {
 					text += "." + name + "()"
-					cur = m.Call(nil)[0].Interface()
+					out := m.Call(nil)
+					cur = out[0].Interface()
+					if len(out) == 2 && !out[1].IsNil() { // (value, error) with a non-nil error: the call fails with that cause
+						cur, class = nil, errClass(out[1].Interface().(error))
+					}
 				}
 				break
 			}
